@@ -166,7 +166,10 @@ CORR = lambda: os.path.join(common.BUILD, "C20.corr.cases")
 
 
 def corr_ok(inp, impl, model, spec):
-    """(impl agrees with the model of the code, impl agrees with the specification)"""
+    """(impl agrees with the model of the code, impl agrees with the specification).
+    An impl observable "NONDET a | b" (two evaluations of the same case differed) agrees with nothing."""
+    if impl.startswith("NONDET"):
+        return False, False
     m_ok = impl == model
     if spec == "-":
         return m_ok, True
@@ -200,15 +203,19 @@ def corr_eval(c, inp, n=[0]):
     return None
 
 
-def corr_shrink(c, inp, want_spec_failure):
-    """Greedy removal of keys / builtin names / parameters while the disagreement persists."""
+def corr_shrink(c, inp, want):
+    """Greedy removal of keys / builtin names / parameters while the disagreement persists.
+    want: 'nondet' (two evaluations differ), 'spec' or 'model'."""
     def fails(x):
         for _ in range(2):      # a walk-order defect shows only in some runs
             r = corr_eval(c, x)
             if r is None:
                 return False
             m_ok, s_ok = corr_ok(x, *r)
-            if (not s_ok) if want_spec_failure else (not m_ok):
+            if want == "nondet":
+                if r[0].startswith("NONDET"):
+                    return True
+            elif (not s_ok) if want == "spec" else (not m_ok):
                 return True
         return False
     toks = inp.split(" ")
@@ -258,7 +265,7 @@ def correspondence(c):
     if not mout:
         return
     n = agree = 0
-    spec_fail, model_fail = [], []
+    nondet, spec_fail, model_fail = [], [], []
     per = {}
     for cid, inp, impl, model, spec in common.iter_joined(cf, mout):
         n += 1
@@ -268,20 +275,25 @@ def correspondence(c):
         if m_ok and s_ok:
             agree += 1
             per[k][1] += 1
+        elif impl.startswith("NONDET"):
+            nondet.append((inp, impl, model, spec))
         elif not s_ok:
             spec_fail.append((inp, impl, model, spec))
         else:
             model_fail.append((inp, impl, model, spec))
     c.coverage.setdefault("corr", {})
-    c.coverage["corr"].update({"compared": n, "agree": agree, "per_stream_cases_agree": per,
+    c.coverage["corr"].update({"compared": n, "agree": agree, "per_stream_cases_agree": per, "repeats_differ": len(nondet),
                                "spec_failures": len(spec_fail), "model_only_failures": len(model_fail)})
-    c.log("correspondence: %d cases, %d agree, %d differ from the specification, %d differ from the model only"
-          % (n, agree, len(spec_fail), len(model_fail)))
+    c.log("correspondence: %d cases, %d agree, %d gave different results on repeated evaluation, %d differ from the specification, %d differ from the model only"
+          % (n, agree, len(nondet), len(spec_fail), len(model_fail)))
     what = {"ksort": "zygo.GoToSexp(map[string]interface{}) -> jsonmsgp.go:makeSortedSlicesFromMap / KiSlice.Less: key order of the hash",
             "symtab": "zygo.NewZlispWithFuncs(funcs): symbol numbers of the queried names (Q) for builtin names F",
             "named": "check.go by-name call: arguments in declared order"}
+    kinds = {"nondet": "the same call on the same input gave two different results (the order of a Go map walk is observable)",
+             "spec": "the real code disagrees (deterministically, as far as observed) with the order-free specification; no input was found on which two evaluations differ",
+             "model": "the real code disagrees with the extracted model of the code (coq/Model/MapWalkKeys.v); the specification is silent or satisfied"}
     seen = set()
-    for lst, spec_failure in ((spec_fail, True), (model_fail, False)):
+    for lst, want in ((nondet, "nondet"), (spec_fail, "spec"), (model_fail, "model")):
         lst.sort(key=lambda t: len(t[0]))
         for inp, impl, model, spec in lst:
             k = inp.split(" ", 1)[0]
@@ -291,25 +303,29 @@ def correspondence(c):
             small = inp
             if not c.replay_in:
                 try:
-                    small = corr_shrink(c, inp, spec_failure)
+                    small = corr_shrink(c, inp, want)
                 except Exception as e:  # the shrinker must never hide the failure
                     c.log("shrink failed: %r" % (e,))
-            r = corr_eval(c, small) if small != inp else None
-            if r is None or all(corr_ok(small, *r)):
+            r = None
+            if small != inp:
+                for _ in range(4):
+                    r = corr_eval(c, small)
+                    if r is not None and (r[0].startswith("NONDET") if want == "nondet" else not all(corr_ok(small, *r))):
+                        break
+                    r = None
+            if r is None:
                 small, r = inp, (impl, model, spec)
             toks = [t for t in small.split(" ")[1:]]
             if k == "symtab":
                 toks = toks[toks.index("F"):]
-            rep = {"kind": ("the real code disagrees with the order-free specification" if spec_failure else
-                            "the real code disagrees with the extracted model of the code (coq/Model/MapWalkKeys.v); the specification is silent or satisfied")
-                           + ": " + what.get(k, k),
+            rep = {"kind": kinds[want] + ": " + what.get(k, k),
                    "stream": k, "corr_input": small, "readable_input": [unhex(t) if t not in ("F", "Q", "D", "S", "R") else t for t in toks][:80],
                    "impl": r[0], "model": r[1], "spec": r[2],
-                   "readable_impl": [unhex(t) for t in r[0].split(" ")][:60] if k == "ksort" else r[0],
-                   "readable_spec": [unhex(t) for t in r[2].split(" ")][:60] if k == "ksort" else r[2],
+                   "readable_impl": [unhex(t) if t not in ("NONDET", "|") else t for t in r[0].split(" ")][:60] if k == "ksort" else r[0],
+                   "readable_model": [unhex(t) for t in r[1].split(" ")][:60] if k == "ksort" else r[1],
                    "unshrunk_input": inp if small != inp else None,
-                   "replay": "bin/check C20 --replay <this file>  (runs this one case on the real code and on the model)"}
-            c.violation(rep, no_input=not spec_failure)
+                   "replay": "bin/check C20 --replay <this file>  (runs this one case several times on the real code, and on the model)"}
+            c.violation(rep, no_input=(want != "nondet"))
 
 
 def run_search(c, extra=()):
